@@ -104,9 +104,10 @@ class CryptoManager:
 
     def generateAuth(self, packet):
         if self.encryption:
-            auth = raw(packet[self.base_class:]).replace(packet.data,b"")
-            if len(packet.mic) != 0:
-                auth = auth.replace(packet.mic, b"")
+            # The authenticated data is the frame without its trailing payload and MIC
+            # (they are the last two fields of the security header).
+            frame = raw(packet[self.base_class:])
+            auth = frame[:len(frame) - len(packet.data) - len(packet.mic)]
         else:
             auth = raw(packet[self.base_class:])[:-self.M]
         return auth
